@@ -12,7 +12,10 @@ import (
 	"github.com/openkruise/rollouts/pkg/util"
 	appsv1 "k8s.io/api/apps/v1"
 	corev1 "k8s.io/api/core/v1"
+	"k8s.io/apimachinery/pkg/runtime/schema"
+	"k8s.io/apimachinery/pkg/util/intstr"
 	"k8s.io/utils/pointer"
+	gatewayv1beta1 "sigs.k8s.io/gateway-api/apis/v1beta1"
 	"sigs.k8s.io/controller-runtime/pkg/client"
 )
 
@@ -170,6 +173,14 @@ func (r *Run) user(a Action) {
 			r.W.Excluded[FindingRevertBeforeObserved]++
 			return
 		}
+		if a.Arg == UserRelease && r.releaseDuringCancel() {
+			r.W.Excluded[FindingReleaseDuringCancel]++
+			return
+		}
+		if a.Arg == UserRollback && r.exitBeforeBatchRelease() {
+			r.W.Excluded[FindingExitBeforeBatchRelease]++
+			return
+		}
 		templateOf(o).Spec.Containers[0].Image = "app:" + ver
 		if s.UseRolloutID {
 			l := o.GetLabels()
@@ -193,6 +204,10 @@ func (r *Run) user(a Action) {
 		if *(*replicasPtr(o)) == n {
 			return
 		}
+		if r.scaleBelowTrafficStep(int(n)) {
+			r.W.Excluded[FindingScaleBelowTrafficStep]++
+			return
+		}
 		*replicasPtr(o) = pointer.Int32(n)
 		if err := cli.Update(ctx, o); err == nil {
 			r.ulog("scale to %d", n)
@@ -214,6 +229,10 @@ func (r *Run) user(a Action) {
 		if ro == nil || ro.Status.GetSubStatus() == nil || ro.Status.Phase != v1beta1.RolloutPhaseProgressing {
 			return
 		}
+		if r.jumpToSelfWithPlanEdit(ro, int32(a.N), false) {
+			r.W.Excluded[FindingPlanEditJumpToSelf]++
+			return
+		}
 		ro.Status.GetSubStatus().NextStepIndex = int32(a.N)
 		if err := cli.Status().Update(ctx, ro); err == nil {
 			r.ulog("jump nextStepIndex=%d", a.N)
@@ -221,6 +240,10 @@ func (r *Run) user(a Action) {
 	case UserPause, UserResume, UserDisable, UserEnable, UserEditStep:
 		ro := w.Rollout(s.Namespace, s.Name)
 		if ro == nil || ro.DeletionTimestamp != nil {
+			return
+		}
+		if a.Arg == UserDisable && r.exitBeforeBatchRelease() {
+			r.W.Excluded[FindingExitBeforeBatchRelease]++
 			return
 		}
 		old := ro.DeepCopy()
@@ -236,6 +259,10 @@ func (r *Run) user(a Action) {
 		case UserEditStep:
 			steps := ro.Spec.Strategy.GetSteps()
 			if len(steps) == 0 {
+				return
+			}
+			if sub := ro.Status.GetSubStatus(); sub != nil && r.jumpToSelfWithPlanEdit(ro, sub.NextStepIndex, true) {
+				r.W.Excluded[FindingPlanEditJumpToSelf]++
 				return
 			}
 			i := mod(a.N, len(steps))
@@ -269,6 +296,10 @@ func (r *Run) user(a Action) {
 		if ro == nil || ro.DeletionTimestamp != nil {
 			return
 		}
+		if r.exitBeforeBatchRelease() {
+			r.W.Excluded[FindingExitBeforeBatchRelease]++
+			return
+		}
 		if err := cli.Delete(ctx, ro); err == nil {
 			r.ulog("delete rollout")
 		}
@@ -282,9 +313,146 @@ func (r *Run) user(a Action) {
 // forever (StepTrafficRouting livelock). See known_findings.json.
 const FindingRevertBeforeObserved = "c07-livelock-revert-to-stable-before-release-observed"
 
+// FindingExitBeforeBatchRelease: the Rollout is deleted or disabled (or the workload rolled back) after the mutating webhook has
+// put the workload on hold (partition 100% / paused, in-progressing annotation) but before the
+// Rollout controller created the BatchRelease. Finalising then finds no BatchRelease to resume
+// the workload through, removes the annotation and its finalizer, and the workload stays held
+// forever (CloneSet partition 100%, Deployment paused) with no Rollout left to drive it.
+const FindingExitBeforeBatchRelease = "c05-workload-left-held-exit-before-batchrelease-created"
+
+// FindingPlanEditJumpToSelf: while step k is still in StepInit/StepUpgrade the user both edits the
+// plan (hash change) and patches nextStepIndex = k. handleRolloutPlanChanged recalculates k,
+// finds it equal to nextStepIndex and sets StepReady; the pending jump to k (same replicas as
+// itself) then enters StepTrafficRouting, so step k's traffic rule is applied before any of its
+// pods exist or are ready.
+const FindingPlanEditJumpToSelf = "c03-plan-edit-plus-jump-to-current-step-routes-before-ready"
+
+// FindingReleaseDuringCancel: with traffic routing, a new template version is published while a
+// rollback is still being finalised (Progressing/Cancelling). The in-progressing annotation is
+// removed at the start of finalising and the workload is handed back (ResumeWorkload) before the
+// stable Service is un-pinned (rollback task order); the webhook does not hold the new release
+// (workload runs several revisions => "cannot enter rollout progressing"), the native controller
+// replaces every stable pod and the stable Service, still pinned to the stable revision, is left
+// without endpoints until the cancel reaches RestoreStableService.
+const FindingReleaseDuringCancel = "c04-release-during-rollback-cancel-empties-pinned-stable-service"
+
+// FindingScaleBelowTrafficStep: partition-style rollout with traffic routing whose plan has a
+// step with a traffic rule that covers the whole workload before or after a mid-release scale
+// (an integer step >= the new size, or a percent step rounding up to everything on 1-2 replicas). The step now replaces every stable pod, but the "restore the stable Service before a
+// step that releases all stable pods" bypass is evaluated in StepInit only, so the stable Service
+// stays pinned to the stable revision and loses all its endpoints.
+const FindingScaleBelowTrafficStep = "c04-scale-down-to-traffic-step-size-empties-pinned-stable-service"
+
 // KnownOpen lists the recorded (not repaired) findings whose input class the user model steers
 // away from, so that the search continues behind them. Exclusions are counted.
-var KnownOpen = map[string]bool{FindingRevertBeforeObserved: true}
+var KnownOpen = map[string]bool{FindingRevertBeforeObserved: true, FindingExitBeforeBatchRelease: true, FindingGatewayDisableCanarySvc: true, FindingPlanEditJumpToSelf: true, FindingReleaseDuringCancel: true, FindingScaleBelowTrafficStep: true}
+
+// scaleBelowTrafficStep: partition style + provider + an integer step with traffic >= n.
+func (r *Run) scaleBelowTrafficStep(n int) bool {
+	if !KnownOpen[FindingScaleBelowTrafficStep] || os.Getenv("VERIF_REPLAY") != "" || !r.S.HasTraffic() || r.S.Style != "partition" {
+		return false
+	}
+	ro := r.W.Rollout(r.S.Namespace, r.S.Name)
+	o := r.workload()
+	if ro == nil || o == nil {
+		return false
+	}
+	old := int(pointer.Int32Deref(*replicasPtr(o), 0))
+	coversAll := func(size int) bool {
+		for _, st := range ro.Spec.Strategy.GetSteps() {
+			if (st.Traffic != nil || len(st.Matches) > 0) && st.Replicas != nil {
+				if k, _ := intstr.GetScaledValueFromIntOrPercent(st.Replicas, size, true); k >= size {
+					return true
+				}
+			}
+		}
+		return false
+	}
+	// scaling across (or within) the region where a traffic step replaces the whole workload
+	return coversAll(old) || coversAll(n)
+}
+
+// releaseDuringCancel: traffic routing configured and the Rollout is finalising a rollback.
+func (r *Run) releaseDuringCancel() bool {
+	if !KnownOpen[FindingReleaseDuringCancel] || os.Getenv("VERIF_REPLAY") != "" {
+		return false
+	}
+	// (a) any release while a rollback is being finalised: the webhook holds the workload and
+	// marks it in-progressing, the cancel's next finalising round removes the marker again, and
+	// the workload stays held with no release ever started for it
+	if ro := r.W.Rollout(r.S.Namespace, r.S.Name); ro != nil && ro.Status.Phase == v1beta1.RolloutPhaseProgressing {
+		if cond := util.GetRolloutCondition(ro.Status, v1beta1.RolloutConditionProgressing); cond != nil && cond.Reason == v1alpha1.ProgressingReasonCancelling {
+			return true
+		}
+	}
+	if !r.S.HasTraffic() {
+		return false
+	}
+	// (b) the dangerous window with traffic routing: the workload has been handed back (no in-progressing marker, so the
+	// webhook will not hold a multi-revision workload) while the stable Service is still pinned
+	o := r.workload()
+	if o == nil {
+		return false
+	}
+	if _, ok := o.GetAnnotations()[util.InRolloutProgressingAnnotation]; ok && r.S.Style != "partition" {
+		return false
+	}
+	// partition style: a superseding release lets the workload controller replace the remaining
+	// stable pods (it keeps "partition" pods of any old revision) while the Service stays pinned
+	svc := r.W.Get(GVKService, r.S.Namespace, r.S.StableServiceName())
+	return svc != nil && svc.(*corev1.Service).Spec.Selector[appsv1.DefaultDeploymentUniqueLabelKey] != ""
+}
+
+// jumpToSelfWithPlanEdit: the rollout is InRolling at step k before its upgrade finished, and
+// after this action both a plan edit and nextStepIndex == k would be outstanding.
+func (r *Run) jumpToSelfWithPlanEdit(ro *v1beta1.Rollout, next int32, editing bool) bool {
+	if !KnownOpen[FindingPlanEditJumpToSelf] || os.Getenv("VERIF_REPLAY") != "" {
+		return false
+	}
+	sub := ro.Status.GetSubStatus()
+	if sub == nil || next != sub.CurrentStepIndex {
+		return false
+	}
+	switch sub.CurrentStepState {
+	case v1beta1.CanaryStepStateInit, v1beta1.CanaryStepStateUpgrade:
+	default:
+		return false
+	}
+	if editing {
+		return true // a jump to the current step is pending and the plan is about to change
+	}
+	// jumping to self while a plan change is unprocessed
+	return sub.RolloutHash != "" && sub.RolloutHash != ro.Annotations[util.RolloutHashAnnotation]
+}
+
+// exitBeforeBatchRelease: workload marked in-progressing and no BatchRelease exists.
+func (r *Run) exitBeforeBatchRelease() bool {
+	if !KnownOpen[FindingExitBeforeBatchRelease] || os.Getenv("VERIF_REPLAY") != "" {
+		return false
+	}
+	o := r.workload()
+	if o == nil {
+		return false
+	}
+	if _, ok := o.GetAnnotations()[util.InRolloutProgressingAnnotation]; !ok {
+		return false
+	}
+	br := r.W.BatchRelease(r.S.Namespace, r.S.Name)
+	if br == nil || br.DeletionTimestamp != nil {
+		return true
+	}
+	// a superseding release is pending: the controller will delete this BatchRelease before it
+	// gets to the exit
+	ro := r.W.Rollout(r.S.Namespace, r.S.Name)
+	if ro == nil {
+		return false
+	}
+	wl, err := util.NewControllerFinder(r.W.Client(ActorHarness)).GetWorkloadForRef(ro)
+	if err != nil || wl == nil || !wl.IsStatusConsistent {
+		return true
+	}
+	return wl.CanaryRevision != ro.Status.GetCanaryRevision()
+}
 
 // revertBeforeObserved: the workload is marked in-progressing but the Rollout has not yet
 // recorded the revision currently in the workload as its canary revision.
@@ -304,7 +472,16 @@ func (r *Run) revertBeforeObserved() bool {
 		return true
 	}
 	cond := util.GetRolloutCondition(ro.Status, v1beta1.RolloutConditionProgressing)
-	return cond == nil || cond.Reason == v1alpha1.ProgressingReasonInitializing
+	if cond == nil || cond.Reason == v1alpha1.ProgressingReasonInitializing {
+		return true
+	}
+	// the controller has not caught up with the template currently in the workload (a previous
+	// change is still unprocessed, e.g. v2 -> v4 -> v1 in quick succession)
+	wl, err := util.NewControllerFinder(r.W.Client(ActorHarness)).GetWorkloadForRef(ro)
+	if err != nil || wl == nil || !wl.IsStatusConsistent {
+		return true
+	}
+	return wl.CanaryRevision != ro.Status.GetCanaryRevision()
 }
 
 // ---------- fair completion ----------
@@ -422,4 +599,76 @@ func (r *Run) LivelockClass() string {
 		cls += "-br-" + strings.ToLower(string(br.Status.Phase)) + "-" + strings.ToLower(string(br.Status.CanaryStatus.CurrentBatchState))
 	}
 	return cls
+}
+
+// FinalState is the normalised final cluster state used to compare a faulty run with the
+// fault-free baseline (C06): no resourceVersions, timestamps, UIDs or generated-name suffixes.
+func (r *Run) FinalState() map[string]any {
+	w, s := r.W, r.S
+	out := map[string]any{}
+	if ro := w.Rollout(s.Namespace, s.Name); ro != nil {
+		m := map[string]any{"phase": string(ro.Status.Phase), "paused": ro.Spec.Strategy.Paused, "disabled": ro.Spec.Disabled}
+		for _, c := range ro.Status.Conditions {
+			m["cond-"+string(c.Type)] = string(c.Status) + "/" + c.Reason
+		}
+		if sub := ro.Status.GetSubStatus(); sub != nil {
+			m["step"] = fmt.Sprintf("%d/%s/%s", sub.CurrentStepIndex, sub.CurrentStepState, sub.FinalisingStep)
+			m["canaryRevision"] = ro.Status.GetCanaryRevision()
+		}
+		out["rollout"] = m
+	} else {
+		out["rollout"] = nil
+	}
+	out["batchrelease"] = w.BatchRelease(s.Namespace, s.Name) != nil
+	if o := r.workload(); o != nil {
+		m := normalized(o)
+		delete(m, "status")
+		if md, ok := m["metadata"].(map[string]any); ok {
+			for _, k := range []string{"uid", "creationTimestamp", "generation"} {
+				delete(md, k)
+			}
+			if ann, ok := md["annotations"].(map[string]any); ok {
+				delete(ann, "deployment.kubernetes.io/revision")
+				if len(ann) == 0 {
+					delete(md, "annotations")
+				}
+			}
+			if lbl, ok := md["labels"].(map[string]any); ok {
+				delete(lbl, v1beta1.RolloutIDLabel)
+			}
+		}
+		out["workload"] = m
+	}
+	for _, gvk := range []schema.GroupVersionKind{GVKService, GVKIngress, GVKHTTPRoute} {
+		for _, o := range w.ListAll(gvk, s.Namespace) {
+			m := normalized(o)
+			delete(m, "status")
+			if md, ok := m["metadata"].(map[string]any); ok {
+				for _, k := range []string{"uid", "creationTimestamp", "generation"} {
+					delete(md, k)
+				}
+			}
+			if gvk == GVKHTTPRoute {
+				m = map[string]any{"shares": routeShares(o.(*gatewayv1beta1.HTTPRoute))}
+			}
+			out[gvk.Kind+"/"+o.GetName()] = m
+		}
+	}
+	deps := 0
+	for _, o := range w.ListAll(GVKDeployment, s.Namespace) {
+		if o.GetDeletionTimestamp() == nil {
+			deps++
+		}
+	}
+	out["deployments"] = deps
+	pods := map[string]int{}
+	for _, o := range w.ListAll(GVKPod, s.Namespace) {
+		p := o.(*corev1.Pod)
+		if p.DeletionTimestamp != nil {
+			continue
+		}
+		pods[fmt.Sprintf("rev=%s ready=%v", p.Labels[appsv1.DefaultDeploymentUniqueLabelKey], isPodReady(p))]++
+	}
+	out["pods"] = pods
+	return normalizedAny(out).(map[string]any)
 }
